@@ -1,6 +1,7 @@
 """C04: Verus on the statement of main::run_dedupe that sets the staleness limit of a dedupe run: the user's
 --modified-before if given, otherwise the timestamp recorded in the report header."""
-from vf.verus_run import Source, Piece, UnitBuild
+import re
+from vf.verus_run import Source, Piece, UnitBuild, LostAnchor, Region
 
 NAME = "run_dedupe_defaults"
 
@@ -23,6 +24,18 @@ fn default_staleness_limit(dedupe_config: &mut DedupeConfig, header: &ReportHead
 '''
 
 
+SIZE_HEAD = r'''
+// ---- the statement of run_dedupe that switches the length check of `partition` off (`no_check_size`): `DCFG` holds the
+// dedupe command's options, `GCFG` the options of the `group` run recorded in the report header
+pub struct GroupConfigS { pub transform: Option<String>, pub cache: bool, pub match_links: bool, pub isolate: bool }
+pub struct DedupeConfigS { pub no_check_size: bool, pub match_links: bool }
+fn size_check_default(DCFG: &mut DedupeConfigS, GCFG: &GroupConfigS)
+    ensures
+        final(DCFG).no_check_size ==> old(DCFG).no_check_size || GCFG.transform is Some, // @ob C04.run_dedupe.the_length_check_is_switched_off_only_by_no_check_size_or_for_a_transformed_report
+{
+'''
+
+
 def build():
     ub = UnitBuild(NAME)
     src = Source("fclones/src/main.rs")
@@ -30,9 +43,34 @@ def build():
     ub.spec(PRELUDE)
     # structural anchor: the top-level statement of run_dedupe that assigns `dedupe_config.modified_before`
     ub.piece(Piece(src.top_stmt(fn, "dedupe_config.modified_before = ")))
-    ub.spec("\n}\n\n} // verus!\nfn main() {}\n")
-    ub.functions = ["main::run_dedupe [statement slice: default of modified_before]"]
+    ub.spec("\n}\n")
+
+    def size_check():
+        # the one statement of run_dedupe that writes `<cfg>.no_check_size`, inside `if let Command::Group(<c>) = ..`
+        ms = list(re.finditer(r"^[ \t]*(\w+)\.no_check_size\s*(\|?=)\s*([^;]+);[ \t]*$", fn.text, re.M))
+        mg = re.search(r"if let Command::Group\((?:ref\s+)?(\w+)\)\s*=", fn.text)
+        if len(ms) != 1 or not mg or mg.start() > ms[0].start():
+            raise LostAnchor("run_dedupe does not write `<cfg>.no_check_size` in exactly one statement inside `if let Command::Group(c) = ..`")
+        m = ms[0]
+        # the statement must be a direct child of that block (executed whenever the report comes from `group`): a write under
+        # a further condition would be cut out of its context, so it is a lost anchor
+        between = re.sub(r"//[^\n]*", "", fn.text[mg.end():m.start()])
+        if between.count("{") - between.count("}") != 1:
+            raise LostAnchor("the statement writing `no_check_size` is not a direct child of the `if let Command::Group(..)` block")
+        dcfg, op, rhs, gcfg = m.group(1), m.group(2), m.group(3).strip(), mg.group(1)
+        reg = Region(src, fn.start + m.start(), fn.start + m.end())
+        ren = ()
+        if op == "|=":
+            # `|=` on bool is outside Verus' subset: desugared (the right-hand side is evaluated once, the flag can only be set)
+            ren = ((reg.text.strip(), "let verif_rhs: bool = %s; if verif_rhs { %s.no_check_size = true; }" % (rhs, dcfg)),)
+        ub.spec(SIZE_HEAD.replace("DCFG", dcfg).replace("GCFG", gcfg))
+        ub.piece(Piece(reg, renames=ren))
+        ub.spec("\n}\n")
+    ub.optional("statement of run_dedupe that sets no_check_size", size_check, prefixes=["C04.run_dedupe.the_length_check"])
+    ub.spec("\n} // verus!\nfn main() {}\n")
+    ub.functions = ["main::run_dedupe [statement slices: default of modified_before; the statement that sets no_check_size]"]
     ub.assumptions = [
+        "`X |= E;` on bool is desugared to `let verif_rhs: bool = E; if verif_rhs { X = true; }` (Verus has no `|=` on bool); GroupConfig / DedupeConfig stand-ins hold only the fields named in the prelude",
         "DedupeConfig / ReportHeader are stand-ins holding the one field each the statement touches; chrono's DateTime is an opaque Copy value",
         "that partition later compares every file against this limit is unit partition_filters; that the header timestamp was taken before `group` began reading files is NOT covered (it is not: DESIGN.md 7.2 D12)",
     ]
